@@ -18,6 +18,7 @@ MsgsBoth  == [s \in {"A", "B"} |-> IF s = "A" THEN <<Mg(1, 1), Mg(1, 2)>> ELSE <
 MsgsA123  == [s \in {"A", "B"} |-> IF s = "A" THEN <<Mg(1, 1), Mg(1, 2), Mg(1, 3)>> ELSE <<Mg(1, 1)>>]
 MsgsPR2    == [s \in {"A", "B"} |-> IF s = "A" THEN <<Mg(2, 1), Mg(1, 1)>> ELSE <<>>]
 MsgsPR3    == [s \in {"A", "B"} |-> IF s = "A" THEN <<Mg(2, 3), Mg(1, 1), Mg(2, 1)>> ELSE <<>>]
+MsgsA22    == [s \in {"A", "B"} |-> IF s = "A" THEN <<Mg(1, 2), Mg(1, 2)>> ELSE <<>>]
 \* two channels: messages alternate
 MsgsTwoCh == [s \in {"A", "B"} |-> IF s = "A" THEN <<Mg(1, 1), Mg(2, 2), Mg(1, 2), Mg(2, 1)>> ELSE <<>>]
 MsgsTwoCh3 == [s \in {"A", "B"} |-> IF s = "A" THEN <<Mg(2, 2), Mg(1, 1), Mg(2, 1)>> ELSE <<>>]
@@ -29,6 +30,14 @@ view == vars
 \* ---- fault-schedule generator (fifo mode): print the fault history each time it grows
 EmitSched == (faults' # faults) => PrintT(<<"SCHED", ToJson(faults')>>)
 NoEmit == TRUE
+\* generator for the closing-window schedules: only losses of A's DATA and delayed / late-duplicated SACKs of B
+WindowFaults ==
+  /\ (faults' # faults) =>
+        LET f == faults'[Len(faults')] IN
+          \/ (f.dir = "A" /\ f.k = "DATA" /\ f.kind = "drop")
+          \/ (f.dir = "B" /\ f.k = "SACK" /\ f.kind \in {"hold", "duplate"})
+  /\ \A d \in {"A", "B"} : \A h \in held'[d] : d = "B" /\ h.p.k = "SACK"
+EmitWindowSched == WindowFaults /\ EmitSched
 
 \* deviation-on models are unbounded (every late COOKIE-ECHO opens again, every reset can re-deliver):
 \* bound the history counters so that a targeted run terminates
